@@ -844,15 +844,15 @@ impl Xot {
                 compare_attributes_count += 1;
             }
 
-            let mut b_ignore_attributes = 0;
-            for ignore_attribute in ignore_attributes {
-                if b_attributes.get(*ignore_attribute).is_some() {
-                    b_ignore_attributes += 1;
-                }
-            }
+            // count the attributes of b that are not ignored; a name that
+            // is listed more than once is still only one attribute
+            let b_compare_attributes_count = b_attributes
+                .keys()
+                .filter(|key| !ignore_attributes.contains(key))
+                .count();
             // we expect the amount of non-ignored attributes in a to
             // be the same as the amount of non-ignored attributes in b
-            compare_attributes_count == b_attributes.len() - b_ignore_attributes
+            compare_attributes_count == b_compare_attributes_count
         } else {
             self.advanced_compare_value(a, b, |a, b| a == b)
         }
